@@ -8,7 +8,8 @@ EXPLANATION = ("(R1) ownership hand-off: in every function that takes a crate co
                "argument on any normal path (it was forgotten / wrapped in ManuallyDrop / moved into the result); (R2) move-out pairing: the panic-safety typestate is run to "
                "the normal returns of every collections/Box function — a slot that was moved out, dropped or duplicated must be excluded by a length/cursor commit before the "
                "function returns (unless the function is a guard type's method, a Drop impl or a hand-off); (R3) who drops: Drop for Vec drops exactly the slice (ptr, len); "
-               "IntoIter/Drain/Splice/DrainFilter/Box have Drop impls; RawVec and the arena's reset/drop reach no element destructor.")
+               "IntoIter/Drain/Splice/DrainFilter/Box have Drop impls; RawVec and the arena's reset/drop reach no element destructor."
+               ' (R5) drain_filter formula clauses; (R6) the ownership obligations of C17 on Box (exact-length array conversion, unconditional Drop, transfers without destructor).')
 RULE = "rule instance = (rule, function); distinct by (rule, function)"
 
 CONTAINERS = ('Vec<', 'String<', 'Box<', 'RawVec<', 'IntoIter<')
